@@ -95,6 +95,31 @@ pub fn init_audit() {
     }
 }
 
+/// Run `f` with stdout pointing to /dev/null and restore it afterwards
+/// (replay mode prints its verdict on stdout after the case ran).
+pub fn with_silenced_stdout<T>(f: impl FnOnce() -> T) -> T {
+    use std::io::Write;
+    use std::os::fd::AsRawFd;
+    let _ = std::io::stdout().flush();
+    let devnull = std::fs::OpenOptions::new().write(true).open("/dev/null");
+    // SAFETY: dup/dup2/close on descriptors owned by this process.
+    let saved = unsafe { libc::dup(1) };
+    if let (Ok(f), true) = (&devnull, saved >= 0) {
+        unsafe {
+            libc::dup2(f.as_raw_fd(), 1);
+        }
+    }
+    let r = f();
+    let _ = std::io::stdout().flush();
+    if saved >= 0 {
+        unsafe {
+            libc::dup2(saved, 1);
+            libc::close(saved);
+        }
+    }
+    r
+}
+
 // ---------------------------------------------------------------------------
 // Server
 // ---------------------------------------------------------------------------
